@@ -166,8 +166,10 @@ var multiUnit = map[family][]string{
 	famGSM7P:  {"[", "]", "{", "}", "^", "~", "|", "\\", "€", "\f", "\r", "@", "\r["},
 	famASCII:  {"\x1b", "\x00", "\x7f", "\r"},
 	famLatin1: {"\x1b", "\x00", "\x7f", "\u20ac", "\u2019", "\u2026", "\u0152"},
-	famUCS2:   {"\ufeff", "\ufffe", "\x1b", "😀", "𝄞", "𠀀", "🚀", "🏳\ufe0f", "👨\u200d👩", "😀\u0301", "❤\ufe0f", "e\u0301", "\ufe0f", "\u200d", "👍🏽"},
-	famGBK:    {"中", "文", "😀", "À", "𠀀", "é", "\x1b", "€"},
+	famUCS2: {"\ufeff", "\ufffe", "\x1b", "😀", "𝄞", "𠀀", "🚀", "🏳\ufe0f", "👨\u200d👩", "😀\u0301", "❤\ufe0f", "e\u0301", "\ufe0f", "\u200d", "👍🏽",
+		// octet pairs that look like something else when read unaligned or as a marker: U+FFFD itself, U+xxFF followed by U+FDxx
+		"\ufffd", "\u00ff\ufdfd", "\u4eff\ufdfc", "\ufeff\ufffe"},
+	famGBK: {"中", "文", "😀", "À", "𠀀", "é", "\x1b", "€"},
 }
 
 // GB18030 characters on the edges of the octet classes (lead 0x81 / 0xFE, trail 0x40 / 0x7E / 0x80 / 0xFE, the
